@@ -691,13 +691,8 @@ where
     }
 }
 
-pub fn main(args: &Args) {
-    let pat = args.get_or("pat", "pubsub6");
-    let var = args.get_or("var", "ipc");
-    let root = args.get_or("root", "/tmp/verif-droporder/x");
-    let tag = args.get_or("tag", "vdo_x_");
-    let order: Vec<(String, String)> = args
-        .get_or("order", "")
+fn run_item(pat: &str, var: &str, order_s: &str, root: String, tag: String) {
+    let order: Vec<(String, String)> = order_s
         .split(',')
         .filter(|s| !s.is_empty())
         .map(|s| {
@@ -706,7 +701,6 @@ pub fn main(args: &Args) {
         })
         .collect();
     let _ = std::fs::create_dir_all(&root);
-    set_log_level(LogLevel::Fatal);
     let mut config = Config::default();
     config.global.prefix = FileName::new(tag.as_bytes()).expect("prefix");
     config.global.set_root_path(&Path::new(root.as_bytes()).expect("root"));
@@ -715,17 +709,39 @@ pub fn main(args: &Args) {
         name: "verif/droporder".try_into().expect("service name"),
         root,
         tag,
-        two: matches!(pat.as_str(), "pubsub8" | "event8" | "reqres8n" | "bb8"),
+        two: matches!(pat, "pubsub8" | "event8" | "reqres8n" | "bb8"),
         dup: pat == "pubsub7",
     };
-    match var.as_str() {
-        "ipc" => dispatch::<ipc::Service>(&env, &pat, &var, &order),
-        "local" => dispatch::<local::Service>(&env, &pat, &var, &order),
-        "ipc_threadsafe" => dispatch::<ipc_threadsafe::Service>(&env, &pat, &var, &order),
-        "local_threadsafe" => dispatch::<local_threadsafe::Service>(&env, &pat, &var, &order),
+    match var {
+        "ipc" => dispatch::<ipc::Service>(&env, pat, var, &order),
+        "local" => dispatch::<local::Service>(&env, pat, var, &order),
+        "ipc_threadsafe" => dispatch::<ipc_threadsafe::Service>(&env, pat, var, &order),
+        "local_threadsafe" => dispatch::<local_threadsafe::Service>(&env, pat, var, &order),
         _ => {
             eprintln!("unknown variant {var}");
             std::process::exit(2);
         }
     }
+}
+
+pub fn main(args: &Args) {
+    set_log_level(LogLevel::Fatal);
+    if let Some(b) = args.get("batch") {
+        // several orders, one after the other, each in a domain of its own; `begin` / `done` tell the
+        // parent which order a crash or hang belongs to
+        for item in vlib::trace::read_ndjson(&b) {
+            let s = |k: &str| item[k].as_str().unwrap_or("").to_string();
+            emit(json!({"k":"begin","i":item["i"]}));
+            run_item(&s("pat"), &s("var"), &s("order"), s("root"), s("tag"));
+            emit(json!({"k":"done","i":item["i"]}));
+        }
+        return;
+    }
+    run_item(
+        &args.get_or("pat", "pubsub6"),
+        &args.get_or("var", "ipc"),
+        &args.get_or("order", ""),
+        args.get_or("root", "/tmp/verif-droporder/x"),
+        args.get_or("tag", "vdo_x_"),
+    );
 }
